@@ -374,6 +374,7 @@ class Check:
         if new:
             exit_code = 1
             seen_sig = set()
+            confirmed = unstable = 0
             for group, case, f, desc in new:
                 sig = findings.signature(desc)
                 if sig in seen_sig:
@@ -382,18 +383,24 @@ class Check:
                 if len(replay_paths) >= 25:
                     continue
                 # confirm determinism before reporting
+                # (a failure that does not reproduce is never reported as a violation; the run is
+                # undecided (exit 2) unless another failure is confirmed to be reproducible)
                 fn = self.replay_fn.get(group)
-                if fn is not None and len(replay_paths) < 5:
+                if fn is not None and confirmed + unstable < 8:
                     again = _run_one((f"{self.pid}.{group}", 0, case))[1]
                     whats = {x["what"] for x in again["fails"]}
                     if f["what"] not in whats:
-                        print(f"NONDETERMINISTIC harness: {self.pid}.{group} failure '{f['what']}' did not reproduce on re-execution; case={short(case)}")
-                        self.write_evidence(len(new), note="nondeterministic")
-                        return 2
+                        print(f"NONDETERMINISTIC: {self.pid}.{group} failure '{f['what']}' did not reproduce on re-execution; case={short(case)}")
+                        unstable += 1
+                        continue
+                    confirmed += 1
                 path = self.write_replay(group, case, f)
                 replay_paths.append(path)
                 lines.append(f"VIOLATION property={self.pid} replay={path}")
                 lines.append(f"  {group}/{f['what']}: observed={f['observed']} expected={f['expected']} ({f['tol']}) case={short(case, 300)}")
+            if unstable and not confirmed:
+                self.write_evidence(len(new), note="nondeterministic")
+                return 2
             n_sigs = len(seen_sig)
             lines.append(f"{self.pid}: {len(new)} failing comparisons in {n_sigs} distinct signatures not listed in known_findings.json")
         self.extra_cov["known_findings_matched"] = {kid: n for kid, (k, n) in matched.items()}
